@@ -128,7 +128,12 @@ def run_verus_unit(uname, workdir, prop=None):
         if msg.startswith('aborting due to'):
             continue
         kind = classify(d)
-        prim = [s for s in d.get('spans', []) if s.get('is_primary')]
+        def callsite(s):
+            # a span inside a macro expansion (unreachable!(), assert!()): use the outermost call site
+            while s.get('expansion') and s['expansion'].get('span'):
+                s = s['expansion']['span']
+            return s
+        prim = [callsite(s) for s in d.get('spans', []) if s.get('is_primary')]
         line = prim[0]['line_start'] if prim else 0
         ptext = prim[0]['text'][0]['text'].strip() if prim and prim[0].get('text') else ''
         o = fn_of_line(line) if line else None
